@@ -42,6 +42,7 @@ type Prog struct {
 	// Normalisation (inline.go): helpers outside the rules' vocabulary that
 	// were merged into their callers.  Absorbed ones have no caller left and
 	// are hidden from Funcs.
+	CanonLog []string // private identifiers renamed back to their known names (canon.go)
 	Inlined  map[*ssa.Function]int
 	Absorbed map[*ssa.Function]bool
 	InlineLog []string
@@ -88,17 +89,31 @@ func Load(o LoadOpts) (*Prog, error) {
 	if err != nil {
 		return nil, fmt.Errorf("load: %w", err)
 	}
-	var errs []string
-	packages.Visit(pkgs, nil, func(p *packages.Package) {
-		if !strings.HasPrefix(p.PkgPath, ModPath) {
-			return
-		}
-		for _, e := range p.Errors {
-			errs = append(errs, e.Error())
-		}
-	})
-	if len(errs) > 0 {
+	modErrors := func(pkgs []*packages.Package) []string {
+		var errs []string
+		packages.Visit(pkgs, nil, func(p *packages.Package) {
+			if !strings.HasPrefix(p.PkgPath, ModPath) {
+				return
+			}
+			for _, e := range p.Errors {
+				errs = append(errs, e.Error())
+			}
+		})
+		return errs
+	}
+	if errs := modErrors(pkgs); len(errs) > 0 {
 		return nil, fmt.Errorf("type-check failed: %s", strings.Join(errs, "; "))
+	}
+	// renamed private identifiers get their known names back (canon.go)
+	var canonLog []string
+	if !o.NoInline && os.Getenv("GSA_NOCANON") == "" {
+		if overlay, log := canonOverlay(pkgs); overlay != nil {
+			cfg2 := *cfg
+			cfg2.Overlay = overlay
+			if pkgs2, err2 := packages.Load(&cfg2, "./..."); err2 == nil && len(modErrors(pkgs2)) == 0 {
+				pkgs, canonLog = pkgs2, log
+			}
+		}
 	}
 	n := 0
 	for _, p := range pkgs {
@@ -112,6 +127,7 @@ func Load(o LoadOpts) (*Prog, error) {
 	prog, _ := ssautil.AllPackages(pkgs, ssa.BuilderMode(0))
 	prog.Build()
 	p := &Prog{
+		CanonLog: canonLog,
 		Root: o.Root, GOOS: o.GOOS, GOARCH: o.GOARCH, Tests: o.Tests,
 		Fset: prog.Fset, Pkgs: pkgs, SSA: prog,
 		ByID: map[string]*packages.Package{}, SPkgs: map[string]*ssa.Package{},
